@@ -63,3 +63,6 @@ Definition set_eqb (a b : list nat) : bool := forallb (fun x => s_mem x b) a && 
 (* d1 == d2 on dictionaries of integers: the same keys with the same values, in any order *)
 Definition dict_eqb (a b : dictZ) : bool :=
   set_eqb (d_keys a) (d_keys b) && forallb (fun kv => match d_find (fst kv) b with Some y => snd kv =? y | None => false end) a.
+(* itertools.combinations(xs, k): the subsequences of length k, in lexicographic order of positions *)
+Fixpoint combinations (l : list nat) (k : nat) {struct l} : list (list nat) :=
+  match k with O => [[]] | S k' => match l with [] => [] | x :: t => map (cons x) (combinations t k') ++ combinations t (S k') end end.
